@@ -65,6 +65,13 @@ structure RState where
   working : List Record
   popped : List Nat
 
+/-- `new_record is not None and record != new_record`, where `new_record` is the first working
+record that lists `new` among its prefixes -/
+def clashWith (working : List Record) (record : Record) (new : Str) : Bool :=
+  match working.find? fun r => r.allP.contains new with
+  | some nr => record != nr
+  | none => false
+
 /-- one iteration of the main loop (lines 58-91) -/
 def remapStep (c : Conv) (handedOver : List Str) (s : RState) (pair : Str × Str) : Except Err RState :=
   let (old, new) := pair
@@ -80,11 +87,7 @@ def remapStep (c : Conv) (handedOver : List Str) (s : RState) (pair : Str × Str
         match s.working[i]? with
         | none => .error .keyError
         | some record =>
-          let newRecord := s.working.find? fun r => r.allP.contains new
-          let clash := match newRecord with
-            | some nr => record != nr
-            | none => false
-          if clash then .ok { s with popped := s.popped ++ [i] }
+          if clashWith s.working record new then .ok { s with popped := s.popped ++ [i] }
           else
             let dropped := if handedOver.contains old then [new, old] else [new]
             let record' := { record with pSyn := setUpdate record.pSyn record.pfx dropped, pfx := new }
